@@ -14,7 +14,7 @@ func (c *syntaxBasicNumericTypeValidator) validate(values []interface{}) bool {
 		case json.Number:
 			foundValue = true
 			values[index], _ = typedValue.Float64()
-		case struct{}:
+		case emptyEntityType:
 		default:
 			values[index] = emptyEntity
 		}
